@@ -2867,6 +2867,8 @@ class Env(cabc.MutableMapping):
         local = self._d._local
         # single positional argument should be a dict-like object
         def capture(k):
+            if k in old:
+                return  # given twice (mapping and keyword): keep the value from before the scope
             old[k] = self._capture_for_swap(k, local)
             # a variable declared with ``sync=`` mirrors its value into a
             # partner (e.g. the deprecated ``$RAISE_SUBPROC_ERROR``): that
@@ -2875,14 +2877,21 @@ class Env(cabc.MutableMapping):
             if sync and sync not in old:
                 old[sync] = self._capture_for_swap(sync, local)
 
-        if other is not None:
-            for k, v in other.items():
+        try:
+            if other is not None:
+                for k, v in other.items():
+                    capture(k)
+                    self._set_item(k, v, thread_local=True)
+            # kwargs could also have been sent in
+            for k, v in kwargs.items():
                 capture(k)
                 self._set_item(k, v, thread_local=True)
-        # kwargs could also have been sent in
-        for k, v in kwargs.items():
-            capture(k)
-            self._set_item(k, v, thread_local=True)
+        except BaseException:
+            # a value was refused half-way: the scope never starts, so the
+            # variables already swapped must not stay behind
+            for k, v in old.items():
+                self._restore_after_swap(k, v)
+            raise
 
         if overlay is not None:
             self._overlay_stack.append(overlay)
